@@ -40,6 +40,7 @@ fn main() {
                 crosscheck_every: get("crosscheck", "0").parse().unwrap(),
                 dual: get("dual", "0") == "1",
                 adaptive: get("adaptive", "0") == "1",
+                sdk: get("sdk", "0") == "1",
             };
             let mut rec = rec::Recorder::to_file(&out);
             hist::run(&cfg, &mut rec);
@@ -106,6 +107,7 @@ fn main() {
                 "deltas" => fndrv::deltas(seed, n, &mut o),
                 "views" => fndrv::views(seed, n, &mut o),
                 "tfee" => fndrv::tfee(seed, n, &mut o),
+                "sdkconv" => fndrv::sdkconv(seed, n, get("stride", "64").parse().unwrap(), &mut o),
                 "ticks" => fndrv::ticks(seed, get("stride", "64").parse().unwrap(), n, get("lo", "-443636").parse().unwrap(), get("hi", "443636").parse().unwrap(), &mut o),
                 _ => panic!("unknown fn driver {what}"),
             }
